@@ -122,25 +122,31 @@ def _concrete_body(body, own: str, all_paths: list[str]):
 
 
 @st.composite
-def graphs(draw, steered: bool = False):
+def graphs(draw, steered: bool = False, no_initless: bool = False):
     n_pkgs, order, shapes = draw(_skeleton)
+    no_initless = no_initless or steered
     skeleton = []
     for name, (single_roll, subs) in zip(order[:n_pkgs], shapes):
         if single_roll == 0:
             rels = [""]
         else:
             subs = list(subs)
-            if "s.a" in subs and "s." not in subs:
+            if "s.a" in subs and "s." not in subs and (no_initless or single_roll != 1):
                 subs.append("s.")
             rels = ["", *sorted(subs)]
         skeleton.append((name, single_roll == 0, rels))
-    all_paths = [name + ("." + rel.rstrip(".") if rel else "") for name, _single, rels in skeleton for rel in rels]
+    all_paths = [name + ("." + rel.rstrip(".") if rel else "") for name, _single, rels in skeleton for rel in rels if not (rel == "s.a" and "s." not in rels)]
     pkgs = []
     for name, single, rels in skeleton:
         mods = []
         for rel in rels:
             own = name + ("." + rel.rstrip(".") if rel else "")
-            mods.append([rel, _concrete_body(draw(_body), own, all_paths)])
+            body = _concrete_body(draw(_body), own, all_paths)
+            if rel == "" and "s.a" in rels and "s." not in rels:
+                # p/s/a.py exists but p/s/__init__.py does not (Griffe skips such a directory), and the package
+                # binds the name `s` itself, by an import that may be dangling
+                body.insert(0, ["from", 0, _concrete_target(draw(_tgt), own, all_paths), "s", None])
+            mods.append([rel, body])
         pkgs.append({"name": name, "single": single, "mods": mods})
     model = {"pkgs": pkgs}
     return steer_wildcards(model) if steered else model
@@ -196,6 +202,17 @@ def chain_graphs(draw, steered: bool = False):
         model = steer_wildcards(model)
     model["chain"] = list(pool)
     return model
+
+
+def initless_dir_behind_import(model) -> bool:
+    """A package holds p/s/a.py without p/s/__init__.py and binds the name `s` in its __init__ by an import."""
+    for pkg in model["pkgs"]:
+        rels = {rel for rel, _ in pkg["mods"]}
+        if "s.a" in rels and "s." not in rels:
+            for rel, body in pkg["mods"]:
+                if rel == "" and any((x[0] == "from" and (x[4] or x[3]) == "s") or (x[0] == "import" and (x[2] or x[1].split(".")[0]) == "s") for x in body):
+                    return True
+    return False
 
 
 def _absolute(own: str, own_is_pkg: bool, level: int, mod: str) -> str:
@@ -325,6 +342,8 @@ def analyse(model) -> tuple[bool, set[str]]:
         classes.add("multi-package")
     if model.get("chain"):
         classes.add("side-loading-chain")
+    if initless_dir_behind_import(model):
+        classes.add("init-less-directory-behind-imported-name")
     if any(p["name"] == "_p" for p in model["pkgs"]) and any(p["name"] == "p" for p in model["pkgs"]):
         classes.add("private-sibling-package")
 
